@@ -505,6 +505,15 @@ def minimise(h, ev, want, max_exec, acceptable=None):
                 if idx != nnew - 1 or ev[1] == idx or any(x[0] in ("tr", "again", "ext", "apply") and x[1] == idx for x in cur):
                     continue
             cand = cur[:i] + cur[i + 1:]
+            # 'again' (the caller translates the SAME query object once more) is only defined after the 'tr' that handed that
+            # object over: a sub-history that drops it is not a history
+            bk = [x[1] for x in cand if x[0] == "new"]
+            ok = True
+            for k, x in enumerate(cand + [ev]):
+                if x[0] == "again" and not any(y[0] == "tr" and y[2] == x[2] and bk[y[1]] == bk[x[1]] for y in cand[:k]):
+                    ok = False
+            if not ok:
+                continue
             try:
                 got = probe_once(cand, ev, max_exec)
             except Exception:
